@@ -1064,6 +1064,22 @@ func (m *Model) deadLetterMaybe(e *ED, t0 time.Time) {
 }
 
 // Sweep models one run of the background dead-letter action with the given batch limit.
+// SweepDue counts the deliveries a dead-letter sweep at t certainly finds.
+func (m *Model) SweepDue(t time.Time) int {
+	n := 0
+	for _, s := range m.AllSubs {
+		if !s.Live || !s.Cfg.strictDL() {
+			continue
+		}
+		for _, e := range s.EDs {
+			if !e.Fuzzy && e.State == stOut && e.Seen >= int(s.Cfg.MaxAttempts) && e.mustAlive(t.Add(time.Second)) && e.mustDue(t) {
+				n++
+			}
+		}
+	}
+	return n
+}
+
 func (m *Model) Sweep(limit int, t0, t1 time.Time) {
 	var must, may []*ED
 	for _, s := range m.AllSubs {
